@@ -1,5 +1,51 @@
 import Props.Defs
 import Proofs.Fields
+import Proofs.Exact_Copy
+namespace Coma.Proofs.Exact
+open Coma Coma.Spec Coma.Proofs
+
+/-- the search window of a seed within 200 bp of the true offset holds exactly the copied
+    reference labels (labels ≥ 2000 bp apart, maxDistance 1500) -/
+theorem refWindow_eq (ref : OMap) (hshift : ref.shift = 0) (A B : List Int) (w0 : Int) (t : List Int)
+    (hpos : ref.positions = A ++ ((w0 :: t) ++ B))
+    (hsp : ref.positions.Pairwise (fun a b => a + 2000 ≤ b)) (s : Int) (hs : (s - w0).natAbs ≤ 200) :
+    refWindow 1500 ref s (s + (lastD 0 ((w0 :: t).map (· - w0)) + 1)) =
+      labelsFwd ((A.length : Int) + 1) (w0 :: t) := by
+  rw [hpos] at hsp
+  obtain ⟨hA, hWB, hAW⟩ := List.pairwise_append.1 hsp
+  obtain ⟨hW, hB, hWB'⟩ := List.pairwise_append.1 hWB
+  have hrel : ((w0 :: t).map (· - w0)).Pairwise (· ≤ ·) :=
+    List.pairwise_map.2 (hW.imp (fun h => by omega))
+  have hLle := le_lastD 0 _ hrel
+  have hLmem := lastD_mem 0 ((w0 :: t).map (· - w0)) (by simp)
+  generalize lastD 0 ((w0 :: t).map (· - w0)) = L at hLle hLmem ⊢
+  obtain ⟨wl, hwl, hwlL⟩ := List.mem_map.1 hLmem
+  have hw0le : ∀ w ∈ w0 :: t, w0 ≤ w := by
+    intro w hw
+    rcases List.mem_cons.1 hw with rfl | hw
+    · omega
+    · have := (List.pairwise_cons.1 hW).1 w hw; omega
+  have hL0 : w0 - w0 ≤ L := hLle _ (List.mem_map_of_mem (f := (· - w0)) List.mem_cons_self)
+  unfold refWindow
+  simp only [OMap.labels, Bool.false_eq_true, if_false, hshift, hpos]
+  rw [labelsFwd_append, labelsFwd_append]
+  have e : (1 : Int) + 0 + (A.length : Int) = (A.length : Int) + 1 := by omega
+  rw [e]
+  apply window_mid _ _ (by omega)
+  · intro a ha
+    have h1 := hAW _ (pos_mem_of_mem_labelsFwd ha) w0 (by simp)
+    omega
+  · intro w hw
+    have hm := pos_mem_of_mem_labelsFwd hw
+    have h1 := hw0le _ hm
+    have h2 := hLle _ (List.mem_map_of_mem (f := (· - w0)) hm)
+    omega
+  · intro b hb
+    have h1 := hWB' wl hwl _ (pos_mem_of_mem_labelsFwd hb)
+    omega
+
+end Coma.Proofs.Exact
+
 namespace Coma.Proofs
 open Coma Coma.Spec
 
@@ -18,6 +64,59 @@ theorem exact_copy (ref : OMap) (hshift : ref.shift = 0)
       row.confidence = (n : Int) * (1000 - ((s - w0).natAbs : Int)) ∧
       hitEnums row.pairs = .ok (List.replicate n Hit.M) ∧
       row.referenceId = ref.id ∧ row.rev = rev := by
-  sorry
+  -- the window is `w0 :: t`
+  have hlen : ((ref.positions.drop i0).take n).length = n := by
+    rw [List.length_take, List.length_drop]; omega
+  have h0 : ((ref.positions.drop i0).take n)[0]? = some w0 := by
+    rw [List.getElem?_take_of_lt (by omega), List.getElem?_drop]
+    simpa using hw0
+  have hpos : ref.positions = ref.positions.take i0 ++
+      ((ref.positions.drop i0).take n ++ (ref.positions.drop i0).drop n) := by
+    rw [List.take_append_drop, List.take_append_drop]
+  have hAlen : (ref.positions.take i0).length = i0 := by
+    rw [List.length_take]; omega
+  generalize ref.positions.take i0 = A at hpos hAlen
+  generalize (ref.positions.drop i0).drop n = B at hpos
+  generalize (ref.positions.drop i0).take n = ws at hlen h0 hpos
+  cases ws with
+  | nil => simp at h0
+  | cons w t =>
+    simp at h0
+    subst h0
+    have hW : (w :: t).Pairwise (fun a b => a + 2000 ≤ b) := by
+      rw [hpos] at hsp
+      exact (List.pairwise_append.1 (List.pairwise_append.1 hsp).2.1).1
+    let ps := Exact.mk w (s - w) it (if rev then -1 else 1) ((i0 : Int) + 1)
+      (if rev then ((t.length + 1 : Nat) : Int) else 1) (w :: t)
+    have G : Exact.Good s w it ps := Exact.mk_good s w it rev (w :: t) hW _ _
+    have hpl : ps.length = n := by rw [Exact.mk_length]; exact hlen
+    have hqs : (copyQuery qid (w :: t) rev).labels rev = ps.map (·.q) :=
+      Exact.copyQuery_labels qid w (s - w) it _ t rev
+    have hrefs : refWindow 1500 ref s (s + (copyQuery qid (w :: t) rev).length) = ps.map (·.r) := by
+      rw [Exact.mk_r, ← hAlen]
+      exact Exact.refWindow_eq ref hshift A B w t hpos hsp s hs
+    have hal := Exact.align_eq G hs (by omega) C ref (copyQuery qid (w :: t) rev) rev hrefs hqs
+    refine ⟨_, hal, ?_, ?_, ?_, ?_, rfl, rfl⟩
+    · rw [Exact.row_pairs]
+      show sitePairs (Exact.mk _ _ _ _ _ _ _) = _
+      rw [Exact.mk_sitePairs, hlen]
+      unfold truePairs
+      apply List.map_congr_left
+      intro j hj
+      have hj' : j < n := List.mem_range.1 hj
+      simp only [List.length_cons] at hlen
+      cases rev
+      · simp; omega
+      · simp only [if_true, Prod.mk.injEq]
+        constructor
+        · push_cast; omega
+        · rw [hlen]; omega
+    · rw [Exact.row_pairs]
+      intro p hp
+      exact (G.sh p hp).1
+    · rw [Exact.row_conf G, hpl]
+    · rw [Exact.row_pairs]
+      show hitEnums (Exact.mk _ _ _ _ _ _ _) = _
+      rw [Exact.mk_hitEnums _ _ _ _ _ (by simp), hlen]
 
 end Coma.Proofs
